@@ -89,6 +89,13 @@ def ref_positions(geo, n, seed):
         return near_collinear_points(n, BENT[geo])
     if geo in SMALL:
         return generic_points(n, seed, tag=100 + n) * SMALL[geo] + OFFSET
+    if geo == 'arms':
+        # a bent chain of two STRAIGHT arms along (4,2,1) and (1,2,4) (dyadic steps: exactly collinear triples in two
+        # generic directions whose least-aligned cartesian axes differ)
+        d1, d2 = np.array([4.0, 2.0, 1.0]) * 0.03125, np.array([1.0, 2.0, 4.0]) * 0.03125
+        pts = [OFFSET, OFFSET + d1, OFFSET + 2 * d1, OFFSET + 2 * d1 + d2, OFFSET + 2 * d1 + 2 * d2,
+               OFFSET + 2 * d1 + 3 * d2]
+        return np.array(pts[:n])
     if geo == 'generic':
         return generic_points(n, seed, tag=100 + n)
     if geo == 'right':
